@@ -26,6 +26,10 @@ type RdbReplay struct {
 	KeyExists       string
 	KeyExistsLog    bool
 	ReplaceHashTag  bool
+
+	// key of a split value whose first chunk met an existing key under the ignore
+	// policy: its remaining chunks are skipped as well
+	ignoredSplitKey string
 }
 
 func (rr *RdbReplay) Replay(e *rdb.BinEntry) (err error) {
@@ -60,7 +64,11 @@ func (rr *RdbReplay) Replay(e *rdb.BinEntry) (err error) {
 		if ot == rdb.RdbObjectModule {
 			return fmt.Errorf("rdb module object requires RESTORE replay for key %s", e.Key)
 		}
+		if !e.FirstBin() && rr.ignoredSplitKey != "" && rr.ignoredSplitKey == string(e.Key) {
+			return nil
+		}
 		if e.FirstBin() {
+			rr.ignoredSplitKey = ""
 			exist, err := common.Bool(rr.Client.Do("exists", e.Key))
 			if err != nil {
 				return err
@@ -79,6 +87,10 @@ func (rr *RdbReplay) Replay(e *rdb.BinEntry) (err error) {
 					if rr.KeyExistsLog {
 						log.Warnf("output key exist, ignore it : %s", e.Key)
 					}
+					if e.ObjectParser.IsSplited() {
+						rr.ignoredSplitKey = string(e.Key)
+					}
+					return nil
 				case "error":
 					return fmt.Errorf("output key exist : %s", e.Key)
 				}
